@@ -238,7 +238,7 @@ class Atoms():
         # angle between plane normals:
         ang = acos((a[0] * b[0] + a[1] * b[1] + a[2] * b[2]) / (
                 sqrt(a[0] * a[0] + a[1] * a[1] + a[2] * a[2]) * sqrt(b[0] * b[0] + b[1] * b[1] + b[2] * b[2])))
-        return degrees(ang) if direction > 0 else degrees(-ang)
+        return degrees(ang) if direction >= 0 else degrees(-ang)
 
     def atoms_in_class(self, name: str) -> list:
         """
